@@ -291,6 +291,41 @@ func init() {
 					}
 				}
 			}
+			// name collisions: tags and parameters named exactly like services must not create service dependencies
+			collide := []struct {
+				id    string
+				apply func(c *Cfg)
+			}{
+				{"carries-tag-named-like-service", func(c *Cfg) { c.Services[0].Tags = append(c.Services[0].Tags, Tag{Name: "sb"}, Tag{Name: "sc"}) }},
+				{"param-named-like-service", func(c *Cfg) {
+					c.Params = []Param{{"sb", 1}, {"sc", "%sb%"}}
+					c.Services[0].Args = []any{"%sb%", "%sc%"}
+				}},
+				{"requests-tag-named-like-service", func(c *Cfg) { c.Services[0].Args = []any{"!tagged sb", "!tagged sc"} }},
+				{"decorated-on-tag-named-like-service", func(c *Cfg) {
+					c.Services[0].Tags = append(c.Services[0].Tags, Tag{Name: "sc"})
+					c.Decorators = []Decorator{{Tag: "sc", Decorator: "pk2.Dec1", Args: []any{"%sb%"}}}
+					c.Params = []Param{{"sb", 1}}
+				}},
+			}
+			for _, col := range collide {
+				scopeVecs(3, func(sc []int) {
+					col, sc := col, append([]int{}, sc...)
+					id := fmt.Sprintf("verdict/names/%s/scopes=%v", col.id, sc)
+					w.Case(id, func(c *C) {
+						cfg := c05cfg(3, nil, nil, sc)
+						col.apply(cfg)
+						files := []File{{"c.yaml", cfg.YAML()}}
+						br := w.Build(files)
+						c.Distinct("all", id)
+						c.Distinct("nontrivial", id)
+						c.Count("evaluations_extra")
+						if !br.OK() {
+							c.Violation("rejected-without-violation:name-collision", "no service depends on another one (tags / parameters merely share a service's name) but the configuration was rejected ("+id+"):\n"+strings.Join(ErrorLines(br.Out), "\n")+br.Panic, FilesMap(files), nil)
+						}
+					})
+				})
+			}
 			// histories
 			var cases []*BCase
 			addHist := func(id string, es [][2]int, kinds []int, sc []int) {
